@@ -284,6 +284,87 @@ def gen_pseudoobj(r, nmax):
     return lpgen.LP(maxi, 0, cols, rows, "pseudoobj"), ["pseudo-objective"]
 
 
+def implied_bounds(row, cols, t):
+    """bounds of column t implied by the row sides and the bounds of the other columns of the row (None = none)"""
+    lhs, co, rhs = row
+    mn, mx = F(0), F(0)
+    for j, a in co.items():
+        if j == t:
+            continue
+        lo, up = cols[j][1], cols[j][2]
+        lo_t, up_t = (lo, up) if a > 0 else (up, lo)
+        mn = None if (mn is None or lo_t is None) else mn + a * lo_t
+        mx = None if (mx is None or up_t is None) else mx + a * up_t
+    a = co[t]
+    # a x_t <= rhs - mn,  a x_t >= lhs - mx
+    hi = None if (rhs is None or mn is None) else (rhs - mn) / a
+    lw = None if (lhs is None or mx is None) else (lhs - mx) / a
+    return (lw, hi) if a > 0 else (hi, lw)
+
+
+def gen_implied_ties(r, count, noise):
+    """rows (equations and ranged rows) with mixed-sign small integer coefficients in which column bounds are EXACTLY the
+    bounds implied by the row and the other columns' bounds (ties): the case splits of the implied-free-variable /
+    redundant-bound reasoning of simplifyRows and simplifyCols.  Systematic over: sign of the two coefficients x tied side
+    (lower / upper / both) x what the other side is (infinite / wider / tie) x equation / ranged x position of the tied
+    column in the row x objective +-e_j for a column of the row x min / max; magnitudes random."""
+    combos = [(s1, s2, side, other, ranged, first, q, d)
+              for s1 in (1, -1) for s2 in (1, -1) for side in ("up", "lo", "both") for other in ("inf", "wide")
+              for ranged in (False, True) for first in (False, True) for q in (0, 1) for d in (1, -1)]
+    r.shuffle(combos)
+    out = []
+    for (s1, s2, side, other, ranged, first, q, d) in combos[:count]:
+        third = r.random() < 0.3
+        a1 = F(s1 * r.randint(1, 3))
+        a2 = F(s2 * r.choice([1, 1, 2]))
+        l1 = F(r.randint(-4, 2))
+        u1 = l1 + r.randint(1, 6)
+        src_lo = r.random() < 0.6          # finite lower bound on the source column?
+        cols = {0: (F(0), l1 if src_lo or side != "up" else None, u1)}
+        co = {0: a1, 1: a2}
+        if third:
+            v = F(r.randint(-2, 2))
+            cols[2] = (F(0), v, v + r.choice([0, 0, 1, 2]))
+            co[2] = F(r.choice([-2, -1, 1, 2]))
+        # make the source column's bounds needed for the implied side finite
+        o, lo, up = cols[0]
+        cols[0] = (o, lo if lo is not None else None, up)
+        c = F(r.randint(-4, 6))
+        row = (c - (r.randint(1, 3) if ranged else 0), co, c)
+        cols[1] = (F(0), None, None)
+        il, iu = implied_bounds(row, cols, 1)
+        if side in ("lo", "both") and il is None or side in ("up", "both") and iu is None:
+            cols[0] = (F(0), l1, u1)
+            il, iu = implied_bounds(row, cols, 1)
+        w = F(r.randint(1, 3))
+        if side == "up":
+            nlo, nup = (None if other == "inf" or il is None else il - w), iu
+        elif side == "lo":
+            nlo, nup = il, (None if other == "inf" or iu is None else iu + w)
+        else:
+            nlo, nup = il, iu
+        cols[1] = (F(0), nlo, nup)
+        # objective +-e_q for a column of the row (plus, sometimes, a small cost on the other one)
+        obj = {0: F(0), 1: F(0), 2: F(0)}
+        obj[q] = F(d * r.randint(1, 3))
+        if r.random() < 0.25:
+            obj[1 - q] = F(r.choice([-1, 1]))
+        order = [1, 0] if first else [0, 1]          # position of the tied column in the row
+        if third:
+            order.insert(r.randrange(3), 2)
+        pos = {old: new for new, old in enumerate(order)}
+        lcols = [None] * len(order)
+        for old, new in pos.items():
+            lcols[new] = (obj[old], cols[old][1], cols[old][2])
+        rows = [(row[0], {pos[j]: a for j, a in co.items()}, row[2])]
+        if noise and r.random() < 0.5:
+            # a second, loose row and an extra column
+            lcols.append((F(r.randint(-2, 2)), F(0), F(r.randint(1, 5))))
+            rows.append((None, {pos[0]: F(r.choice([-1, 1])), len(lcols) - 1: F(1)}, F(40)))
+        out.append(lpgen.LP(r.random() < 0.5, 0, lcols, rows, "implied-tie"))
+    return out
+
+
 def gen_presolve_lp(r, nmax):
     if r.random() < 0.06:
         return gen_pseudoobj(r, nmax)
@@ -647,6 +728,13 @@ def main():
             lps.append(c[0])
             tagsets.append(["corpus"])
     ncorpus = len(lps)
+    if replay_cfg is None:
+        # systematic family: every case is run with keep-bounds off AND on
+        for p in gen_implied_ties(r, 64 if ck.tier == "quick" else 384, ck.tier != "quick"):
+            lps.append(p)
+            tagsets.append(["implied-tie"])
+    nties = len(lps) - ncorpus
+    nlp += nties
     while len(lps) < nlp + ncorpus:
         p, tags = gen_presolve_lp(r, nmax)
         lps.append(p)
@@ -657,8 +745,9 @@ def main():
     runcfg = {}
     for k, p in enumerate(lps):
         txt += p.text(str(k)) + "\n"
-        cfgs = (replay_cfg or [(0, 0), (1, 0)]) if k < ncorpus else [(r.randrange(2), r.randrange(1000))]
-        if k >= ncorpus and r.random() < 0.35:
+        cfgs = (replay_cfg or [(0, 0), (1, 0)]) if k < ncorpus else ([(0, r.randrange(1000)), (1, r.randrange(1000))] if k < ncorpus + nties
+                                                                      else [(r.randrange(2), r.randrange(1000))])
+        if k >= ncorpus + nties and r.random() < 0.35:
             cfgs.append((1 - cfgs[0][0], r.randrange(1000)))
         runcfg[k] = cfgs
         for c, (keep, seed) in enumerate(cfgs):
@@ -922,7 +1011,8 @@ def main():
     ck.cov["tolerances"] = {"tp": float(sc.TP), "td": float(sc.TD), "tc": float(sc.TC), "tv": float(sc.TV), "step_value_rel": VAL_REL}
     ck.cov["rule"] = ("LPs rich in presolve structure (around-a-point base + 1..5 decorations: empty/singleton/forcing/duplicate/parallel/free rows, empty/"
                       "singleton/dominated/duplicate/implied-free/fixed columns, doubleton equations, redundant bounds, multi-aggregation candidates; infeasible and "
-                      "unbounded bases; lpgen vertex family), sizes up to %d+decorations, min/max, keep-bounds on/off, random presolve seeds; every OKAY run solves the "
+                      "unbounded bases; lpgen vertex family; systematic implied-bound-tie family: equations / ranged rows with mixed-sign coefficients whose column "
+                      "bounds equal exactly the bounds implied by the row, objective +-e_j, each run with keep-bounds off and on), sizes up to %d+decorations, min/max, keep-bounds on/off, random presolve seeds; every OKAY run solves the "
                       "reduced LP to <= %d distinct optimal vertices (algorithm x pricer x representation x ratio tester x seed). A case is (LP, keepbounds, seed); "
                       "non-trivial when at least one reduction fired and rows+columns >= 3" % (nmax, nvert))
     ck.cov["trusted_base"] = ["Coq 8.16.1 kernel; theorems of Properties_C08.v",
